@@ -88,6 +88,20 @@ def logical_coords(box, view, h, w, c0, c1, esize, bc=(False, False, False)):
     return np.repeat(lin.reshape(-1), esize)
 
 
+def tile_padded_coords(box, view, h, w, c0, c1, esize, pad):
+    """as logical_coords for an IFM that the hardware tiles pad by one row/column of edge values on the sides named in
+    pad = (top, left, bottom, right): local element (y, x) is tensor element (clamp(y - top), clamp(x - left))"""
+    _, Hv, Wv, Cv = view
+    y0, x0, cstart = box["start"][1], box["start"][2], box["start"][3]
+    ys = np.clip(y0 + np.arange(h, dtype=np.int64) - pad[0], 0, Hv - 1)[:, None, None]
+    xs = np.clip(x0 + np.arange(w, dtype=np.int64) - pad[1], 0, Wv - 1)[None, :, None]
+    cs = (cstart + np.arange(c0, c1, dtype=np.int64))[None, None, :]
+    lin = np.broadcast_to((ys * Wv + xs) * Cv + cs, (h, w, c1 - c0))
+    if esize == 1:
+        return lin.reshape(-1)
+    return np.repeat(lin.reshape(-1), esize)
+
+
 def uses_logical(desc):
     return desc["fmt"] == "NHCWB16" or desc["sub"] != "Standard"
 
@@ -296,7 +310,11 @@ class TagMachine:
             if desc["purpose"] != "FeatureMap" or desc["mem_type"].startswith("Permanent"):
                 continue  # constant operand read straight from the constants region
             t = self.tids.get(desc)
-            coord = self._fm_identity(desc, box, view, fm, fm.height, fm.width, 0, fm.depth, ab)
+            if which == "" and c.get("padding_type") == "Padding.TILE" and c.get("explicit_padding") and uses_logical(desc):
+                coord = tile_padded_coords(box, view, fm.height, fm.width, 0, fm.depth, fm.esize, tuple(c["explicit_padding"]))
+                self.stats["tile_padded_reads"] = self.stats.get("tile_padded_reads", 0) + 1
+            else:
+                coord = self._fm_identity(desc, box, view, fm, fm.height, fm.width, 0, fm.depth, ab)
             self._check(region, ab, t, coord, opi, "IFM" + which, desc)
         ncores = isa.ACCELERATORS[self.acc]["cores"]
         wr = D.weight_ranges(op, ncores)
